@@ -997,10 +997,17 @@ void ExpressionBuilder::expr_numof()
     fragments.push(expression_t::create_unary(NUMOF, id, position, t));
 }
 
+/** The type of the variable that a quantifier over a dynamic template binds: like the binder of forall / exists / sum
+ * it is constant, so that it cannot be the target of an assignment. */
+static type_t process_binder_type(const position_t& position)
+{
+    return type_t::create_primitive(Constants::PROCESS_VAR, position).create_prefix(Constants::CONSTANT, position);
+}
+
 void ExpressionBuilder::expr_forall_dynamic_begin(const char* name, const char* temp)
 {
     push_frame(frame_t::create(frames.top()));
-    frames.top().add_symbol(name, type_t::create_primitive(PROCESS_VAR, position), position);
+    frames.top().add_symbol(name, process_binder_type(position), position);
     template_t* templ = document.find_dynamic_template(temp);
     if (!templ)
         throw UnknownDynamicTemplateError(temp);
@@ -1033,7 +1040,7 @@ void ExpressionBuilder::expr_forall_dynamic_end(const char* name)
 void ExpressionBuilder::expr_exists_dynamic_begin(const char* name, const char* temp)
 {
     push_frame(frame_t::create(frames.top()));
-    frames.top().add_symbol(name, type_t::create_primitive(Constants::PROCESS_VAR, position), position);
+    frames.top().add_symbol(name, process_binder_type(position), position);
     template_t* templ = document.find_dynamic_template(temp);
     if (!templ) {
         throw UnknownDynamicTemplateError(temp);
@@ -1065,7 +1072,7 @@ void ExpressionBuilder::expr_exists_dynamic_end(const char* name)
 void ExpressionBuilder::expr_sum_dynamic_begin(const char* name, const char* temp)
 {
     push_frame(frame_t::create(frames.top()));
-    frames.top().add_symbol(name, type_t::create_primitive(Constants::PROCESS_VAR, position), position);
+    frames.top().add_symbol(name, process_binder_type(position), position);
     template_t* templ = document.find_dynamic_template(temp);
     if (!templ) {
         throw UnknownDynamicTemplateError(temp);
@@ -1089,7 +1096,7 @@ void ExpressionBuilder::expr_sum_dynamic_end(const char* name)
 void ExpressionBuilder::expr_foreach_dynamic_begin(const char* name, const char* temp)
 {
     push_frame(frame_t::create(frames.top()));
-    frames.top().add_symbol(name, type_t::create_primitive(Constants::PROCESS_VAR, position), position);
+    frames.top().add_symbol(name, process_binder_type(position), position);
     if (!document.find_dynamic_template(temp)) {
         throw UnknownDynamicTemplateError(temp);
     }
